@@ -3,7 +3,10 @@
 mpz/aorsmul_i.c (mpz_aorsmul_1 behind mpz_addmul_ui / mpz_submul_ui: `MPZ_REALLOC (w, new_wsize+1)`, the x-longer-than-w paths with
 mpn_mul_1 + mpn_add_1 / MPN_MUL_1C, the borrow-out path that stores `wp[new_wsize]` and negates in two's complement, MPN_INCR_U /
 MPN_DECR_U) and mpz/aorsmul.c (mpz_addmul / mpz_submul: the one-limb shortcut into mpz_aorsmul_1, the temporary product,
-`MPZ_REALLOC (w, MAX (wsize, tsize) + 1)` and the carry store `wp[wsize] = c`) in lean/Mpir/Model/AllocSafeMpz4.lean.  Ops `as4_*`
+`MPZ_REALLOC (w, MAX (wsize, tsize) + 1)` and the carry store `wp[wsize] = c`) and mpz/mul.c (one-limb path, basecase shortcut, the generic
+path: a block that is too small is replaced by a fresh one of exactly usize + vsize limbs whose contents are NOT copied — the old block is kept
+until the end when w is an operand (`free_me`), freed at once otherwise —, an aliased operand copied to temporary space when the block is large
+enough, squaring) in lean/Mpir/Model/AllocSafeMpz4.lean.  Ops `as4_*`
 (harness/ops_allocsafe4.c) run the real function on objects of the GIVEN allocations in every alias mode and compare ALLOC(w), SIZ(w)
 and the value with the model's run."""
 from genlib import *
@@ -15,7 +18,7 @@ THEOREMS = ["Mpir.AllocSafe." + t for t in (
     "mpz_addmul_ui_alloc_safe", "mpz_submul_ui_alloc_safe", "mpz_addmul_alloc_safe", "mpz_submul_alloc_safe",
     "aorsmul_1_refines", "aorsmul_1_add_refines", "aorsmul_1_sub_ge_refines", "aorsmul_1_sub_lt_refines", "subGeFix_refines",
     "aorsmul_1_zero_refines", "aorsmul_refines", "aorsmulCore_refines", "add_S_refines", "sub_S_refines", "mpn_mul_tmp_spec",
-    "Wrote.rd_src")]
+    "Wrote.rd_src", "mpz_mul_alloc_safe", "mul_refines", "mulGeneric_refines", "mulTail_refines", "tmp_copy_spec", "Den.fresh")]
 TRUSTED = ["hand-written size-aware models lean/Mpir/Model/AllocSafeMpz4.lean (mpz/aorsmul_i.c, aorsmul.c on the memory model of AllocSafe.lean; "
            "TMP_ALLOC_LIMBS (tsize) = a block of its own that no variable points to; mpn_mul = the schoolbook product written to "
            "[0, xn+yn) of its destination), tied by exact comparison of ALLOC(w), SIZ(w), value in every alias mode, and by source pins"]
@@ -27,7 +30,7 @@ RULE = ("allocsafe4: addmul_ui/submul_ui/addmul/submul with every sign combinati
         "aorsmul_i.c:169, products with a zero top limb, one-limb multiplier in either position, all five alias modes, destination allocation "
         "exact / need-1 / need / generous")
 
-PINS = [("mpz/aorsmul_i.c", None), ("mpz/aorsmul.c", None)]
+PINS = [("mpz/aorsmul_i.c", None), ("mpz/aorsmul.c", None), ("mpz/mul.c", None)]
 
 def nl(x): return (abs(x).bit_length() + 63) // 64
 
@@ -110,6 +113,27 @@ def gen_mm(rng, name):
     need = max(nl(w), nl(x) + nl(y)) + 1
     return "%s %x %s %s %s" % (name, m, obj(rng, w, need), obj(rng, x, need), obj(rng, y, need))
 
+def gen_mul(rng):
+    """mpz_mul: the one-limb path, the basecase shortcut (w neither operand, usize + vsize <= MUL_KARATSUBA_THRESHOLD), the generic path
+    (aliased, or longer): block too small and w an operand (free_me), too small and distinct (freed at once), large enough and aliased
+    (temporary copy), squaring through one variable, top product limb zero"""
+    c = rng.randrange(10)
+    kx = rng.randrange(1, 6); ky = rng.randrange(1, 6)
+    if c == 0: kx = rng.randrange(7, 12); ky = rng.randrange(7, 12)           # beyond the threshold
+    if c == 1: ky = 1
+    if c == 2: kx = 1
+    x = special(rng, kx); y = special(rng, ky)
+    if c == 3: x = B ** (kx - 1); y = B ** (ky - 1)                           # top limb of the product zero
+    if c == 4: x = 0
+    x = sgnd(rng, x); y = sgnd(rng, y)
+    m = rng.choice([0, 0, 1, 1, 2, 2, 3, 4, 4])
+    if m == 3: y = x
+    need = nl(x) + nl(y)
+    w = sgnd(rng, special(rng, rng.randrange(1, 4)))
+    # an aliased destination with room for the product (temporary-copy path) or without (free_me path)
+    def big(v): return "%x %s" % (rng.choice([max(nl(v), 1), need - 1 if need - 1 >= max(nl(v), 1) else need, need, need + 2, max(nl(v), 1) + 1]), hx(v))
+    return "as4_mul %x %s %s %s" % (m, obj(rng, w, need), big(x), big(y))
+
 def gen_ops(rng, tier, ctx=None):
     n = 1200 if tier == "quick" else 12000
     for _ in range(n):
@@ -117,6 +141,7 @@ def gen_ops(rng, tier, ctx=None):
         yield gen_ui(rng, "as4_submul_ui")
         yield gen_mm(rng, "as4_addmul")
         yield gen_mm(rng, "as4_submul")
+        yield gen_mul(rng)
 
 def nontrivial(line):
     return line if line.startswith("as4_") else None
